@@ -131,6 +131,19 @@ def list_into(prop, tier, fnd, cov, ck):
         raise ck.ToolError("pointer-level model LruList violates its invariants:\n" + rep.get("tail", ""))
 
 
+def clone_dump(tier, ck):
+    return ck.stage_dump(tier, module="MC_Clone.tla", base="MC_CloneDump", name="dump-clone",
+                         segments=(("crash", 400 if tier == "quick" else 4000),))
+
+
+def clone_crash_into(prop, tier, fnd, cov, ck):
+    """panics inside clone() (Clone of key / value, Hash while filling the new table) and inside
+    calls made while two caches are alive"""
+    dump = clone_dump(tier, ck)
+    seg = ck.stage_segments(tier, dump["crash"]["file"], "segments-clonecrash", universe="3")
+    segments_into(prop, seg, fnd, cov, ck, "crash")
+
+
 def collect(prop, tier, fnd, cov, ck):
     if prop in ("C16", "C17"):
         list_into(prop, tier, fnd, cov, ck)
@@ -161,7 +174,7 @@ def collect(prop, tier, fnd, cov, ck):
     if prop == "C14":
         model = ck.stage_model(tier, module="MC_Clone.tla", base="MC_Clone", name="model-clone")
         model_into(prop, model, cov, ck, "MC_Clone")
-        dump = ck.stage_dump(tier, module="MC_Clone.tla", base="MC_CloneDump", name="dump-clone")
+        dump = clone_dump(tier, ck)
         cov["edges"] = dump["tour"]["edges"]
         nt = dump["nontrivial"]
         rep = ck.stage_replay(tier, dump=dump, name="replay-clone", universe="3")
@@ -177,6 +190,7 @@ def collect(prop, tier, fnd, cov, ck):
         dump = ck.core_dump(tier)
         seg = ck.stage_segments(tier, dump["crash"]["file"], "segments-crash", universe="3")
         segments_into(prop, seg, fnd, cov, ck, "crash")
+        clone_crash_into(prop, tier, fnd, cov, ck)
         plan = crash_plan(tier, int(os.environ.get("VERIF_SEED", "0")))
         drv = ck.stage_drive(tier, name="drive-crash", plan=plan)
         ck.collect_drive(prop, drv, fnd, cov, crash_owner="C16")
@@ -204,9 +218,14 @@ def collect(prop, tier, fnd, cov, ck):
             "procedure: every predicted-accept function must compile, every predicted-reject function must "
             "carry a borrow-check (E0499/E0502/E0505..) or trait (E0277) error on its own lines.")
         cov["rule"] = "non-trivial = programs predicted to be rejected (each a distinct acquire/call pair or witness assignment)"
-        if bw.get("api_gaps") or bw.get("api_wrong_mode") or bw.get("api_stale"):
-            raise ck.ToolError("the API table of spec/Borrow.tla no longer matches src/lib.rs: gaps %s, wrong mode %s, "
-                               "stale %s" % (bw.get("api_gaps"), bw.get("api_wrong_mode"), bw.get("api_stale")))
+        # an API unknown to the model is a coverage gap (tool error).  An API whose receiver is
+        # WEAKER in the code than in the model (e.g. a promoting call through &self) is not: the
+        # probes are generated with the model's modes, so rustc accepting what the model rejects
+        # shows up as a disagreement, i.e. a violation.
+        cov["api_receiver_differs_from_model"] = bw.get("api_wrong_mode")
+        if bw.get("api_gaps") or bw.get("api_stale"):
+            raise ck.ToolError("the API table of spec/Borrow.tla no longer covers src/lib.rs: gaps %s, stale %s"
+                               % (bw.get("api_gaps"), bw.get("api_stale")))
         for dsg in bw["disagreements"]:
             pr = dsg.get("program") or {}
             sig = "borrow:%s:%s:%s" % (pr.get("kind", dsg.get("target")), pr.get("acq", pr.get("trait", "")),
